@@ -26,10 +26,10 @@ RULE = ("plans = forest x peer schedules x batching x locks x callbacks x set-sl
         "a waiting subtree) or a delivery of a new header after a lock")
 FAULT_KINDS = ["duplicate", "duplicate_of_locked", "duplicate_in_batch", "child_before_parent",
                "orphan_never_resolved", "reordered_batch", "partition_heal_burst", "fork_below_lock",
-               "empty_batch", "retransmit", "stale_branch_after_lock", "crash_restart"]
+               "empty_batch", "retransmit", "stale_branch_after_lock", "crash_restart", "peer_disconnect_mid_batch"]
 PROBES = ["reorg", "deep_reorg>=3", "tie", "orphan_adopted", "adopt_parent_and_sibling_same_batch",
           "lock", "lock_full_length", "lock_noop", "delivery_after_lock", "callback_delivered",
-          "callback_dropped", "two_instances", "slot_collision", "weight_zero_header", "lock_raised"]
+          "callback_dropped", "two_instances", "slot_collision", "weight_zero_header", "lock_raised", "judged_bookkeeping_only_while_uncertain"]
 
 
 # ---------------------------------------------------------------------------------------------
@@ -192,6 +192,7 @@ def gen_plan(rng, tier, index, config=None):
     p_query = r.pick([0.0, 0.2, 0.5])
     p_shuffle_batch = r.pick([0.0, 0.3, 1.0])
     p_restart = r.pick([0.0, 0.0, 0.05, 0.15]) if p_lock > 0 else 0.0
+    p_cut = r.pick([0.0, 0.0, 0.1, 0.3])
     sent = []
     bcs = ["bc0"] + (["bc1"] if config == "A2-two-instances" else [])
     steps = []
@@ -221,6 +222,13 @@ def gen_plan(rng, tier, index, config=None):
         bc = r.pick(bcs)
         hs = [[lab, info[lab][0], info[lab][1]] for lab, _ in batch]
         tags = sorted({tg for _, tgs in batch for tg in tgs})
+        if hs and r.chance(p_cut):
+            # the peer goes away in the middle of the batch: the iterator handed to add_headers raises after `cut` headers;
+            # usually it reconnects and sends the batch again
+            steps.append({"op": "deliver", "bc": bc, "batch": hs, "t": round(t, 6), "tags": tags, "cut": r.below(len(hs))})
+            if r.chance(0.2):
+                sent.extend(h for h in hs[: steps[-1]["cut"]] if h not in sent)
+                continue
         steps.append({"op": "deliver", "bc": bc, "batch": hs, "t": round(t, 6), "tags": tags})
         sent.extend(h for h in hs if h not in sent)
         if r.chance(p_restart):
@@ -297,6 +305,7 @@ class _Inst(object):
         self.waiting_tops = {}
         self.durable = []          # what did_lock_to_index_f handed to the (simulated) disk
         self.persist_calls = 0
+        self.uncertain = set()      # labels a failed delivery had consumed and no complete delivery has carried since
 
     def persist(self, items, old_length):
         self.persist_calls += 1
@@ -442,9 +451,69 @@ def execute(plan, ctx):
             _query(ctx, ids, inst, st)
 
 
+class _Disconnect(Exception):
+    pass
+
+
+def _deliver_cut(ctx, ids, inst, st, cut):
+    """the peer goes away in the middle of a batch: the iterator handed to add_headers raises after `cut` headers.
+    Whether the tracker keeps the consumed prefix or drops the whole batch is not stated; the consumed headers are
+    *uncertain* until a complete delivery carries them again.  Judged here: the call fails with the peer's exception (or
+    completes), the tracker still answers, and it still describes exactly the chain it last reported."""
+    model, sut = inst.model, inst.sut
+    ctx.fault("peer_disconnect_mid_batch")
+    ctx.nontrivial = True
+    consumed = st["batch"][:cut]
+    headers = [ids.header(lab) for lab, _, _ in consumed]
+    for cb in inst.cbs.values():
+        cb.calls = []
+
+    def feed():
+        for h in headers:
+            yield h
+        raise _Disconnect("peer went away in the middle of the batch (simulated)")
+
+    try:
+        sut.add_headers(feed())
+        ctx.violate("C15", "deliver-swallowed-peer-error", {"batch": [b[0] for b in consumed]})
+        raise Abort()
+    except _Disconnect:
+        pass
+    except Abort:
+        raise
+    except Exception as e:
+        ctx.violate("C15", "deliver-raised", {"exc": type(e).__name__, "msg": str(e)[:200], "batch": [b[0] for b in consumed],
+                                              "during": "failed delivery"})
+        raise Abort()
+    inst.uncertain |= {lab for lab, _, _ in consumed if lab not in model.delivered}
+    try:
+        n = sut.length()
+        chain_ids = [sut.hash_for_index(i) for i in range(n)]
+        chain = [ids.label(h) for h in chain_ids]
+        look = [sut.index_for_hash(h) for h in chain_ids]
+    except Exception as e:
+        ctx.violate("C15", "query-raised", {"exc": type(e).__name__, "msg": str(e)[:200], "after": "failed delivery"})
+        raise Abort()
+    ctx.obs("deliver-cut", st["bc"], [b[0] for b in consumed], chain)
+    if chain != inst.L:
+        ctx.violate("C15", "ops-replay-mismatch", {"replayed": inst.L[-6:], "reported": chain[-6:], "len_replayed": len(inst.L),
+                                                   "len_reported": len(chain), "after": "failed delivery (no operations were returned)"})
+        inst.L = list(chain)
+    elif look != list(range(n)):
+        ctx.violate("C15", "lookup-disagree", {"after": "failed delivery", "index_for_hash": look[-6:]})
+    if any(cb.calls for cb in inst.cbs.values()):
+        ctx.violate("C15", "callback-mismatch", {"why": "operations sent to callbacks during a delivery that failed"})
+
+
 def _deliver(ctx, ids, inst, st):
     model, sut = inst.model, inst.sut
     batch = st["batch"]
+    cut = st.get("cut")
+    if cut is not None and 0 <= cut < len(batch):
+        return _deliver_cut(ctx, ids, inst, st, cut)
+    if inst.uncertain:
+        # headers a failed delivery had consumed become certain when a complete delivery carries them
+        inst.uncertain -= {lab for lab, _, _ in batch}
     headers = []
     seen_in_batch = set()
     new_labels = []
@@ -549,6 +618,23 @@ def _deliver(ctx, ids, inst, st):
         raise Abort()
     chain = [ids.label(h) for h in chain_ids]
     ctx.obs("chain", chain)
+    if inst.uncertain:
+        # whether the tracker kept what a failed delivery had consumed is its own business until those headers arrive again:
+        # meanwhile only the bookkeeping is judged (operations replay to the reported chain, lookups agree with it)
+        ctx.probe("judged_bookkeeping_only_while_uncertain")
+        if bad_ops is None and L != chain:
+            ctx.violate("C15", "ops-replay-mismatch", {"replayed": L[-6:], "reported": chain[-6:], "len_replayed": len(L),
+                                                       "len_reported": len(chain), "while": "headers of a failed delivery outstanding"})
+            inst.L = list(chain)
+        try:
+            look = [sut.index_for_hash(h) for h in chain_ids]
+        except Exception as e:
+            ctx.violate("C15", "query-raised", {"exc": type(e).__name__, "msg": str(e)[:200]})
+            raise Abort()
+        if look != list(range(n)):
+            ctx.violate("C15", "lookup-disagree", {"while": "headers of a failed delivery outstanding", "index_for_hash": look[-6:]})
+        inst.locked_since_delivery = False
+        return
     if inst.pending_lock_issue is not None:
         # a discrepancy that appeared at a lock counts only if the next delivery did not heal it
         issue, inst.pending_lock_issue = inst.pending_lock_issue, None
@@ -628,6 +714,8 @@ def _deliver(ctx, ids, inst, st):
 
 def _lock(ctx, ids, inst, st):
     sut, model = inst.sut, inst.model
+    if inst.uncertain:
+        return  # (the wallet does not lock while headers of a failed delivery are outstanding)
     try:
         n = sut.length()
     except Exception as e:
@@ -690,6 +778,7 @@ def _restart(ctx, ids, inst, st, anchor_label):
     from pycoin.blockchain.BlockChain import BlockChain
     if inst.pending_lock_issue is not None:
         return  # a lock already went wrong; the next delivery reports it
+    inst.uncertain = set()  # nothing unlocked survives a restart, certain or not
     model = inst.model
     durable = list(inst.durable)
     ctx.fault("crash_restart")
